@@ -5,7 +5,7 @@ ROOT = os.path.dirname(os.path.dirname(os.path.abspath(__file__)))
 CHECKS = {
  'C18': dict(
    technique='Coq proof: textbook identities in exact arithmetic (R instance) AND a floating-point rounding bound for the executed binary64 instance (Flocq: recursive summation and the mean) + bit-for-bit differential correspondence of the extracted float instance against the Rust code + exact-rational oracle',
-   text='16 theorems about the Gallina transcription of variation.rs: definitions, bounds, translation/scale laws, sample/population ratio, geometric mean as n-th root of the product, NaN guards (exact arithmetic, all samples of any length); and for the IEEE binary64 instance itself: c18_sum_list_float_error ((1+eps)^n - 1 relative bound for the left-to-right sum of finite floats without overflow), c18_sum_list_no_overflow, c18_nofnat_float_exact, c18_arith_mean_float_error (the computed mean is within ((1+eps)^(n+1) - 1) * sum|x_i| / n + 2^-1075 of the exact mean); the model is tied to the code by running its float instance bit-for-bit against the implementation on generated samples',
+   text='17 theorems about the Gallina transcription of variation.rs: definitions, bounds, translation/scale laws, sample/population ratio, geometric mean as n-th root of the product, NaN guards (exact arithmetic, all samples of any length); and for the IEEE binary64 instance itself: c18_sum_list_float_error ((1+eps)^n - 1 relative bound for the left-to-right sum of finite floats without overflow), c18_sum_list_no_overflow, c18_nofnat_float_exact, c18_arith_mean_float_error (the computed mean is within ((1+eps)^(n+1) - 1) * sum|x_i| / n + 2^-1075 of the exact mean), c18_std_dev_float_error (the computed deviation is within relative (1+eps)^(n+5) - 1 of the exact deviation around the computed mean); the model is tied to the code by running its float instance bit-for-bit against the implementation on generated samples',
    note='Coq kernel; Reals axioms (sig_forall_dec, sig_not_dec, functional_extensionality_dep, classic); for the float-level theorems the standard library FloatAxioms (add_spec, div_spec, Prim2SF_valid, SF2Prim_Prim2SF, Prim2SF_SF2Prim) and the body-less kernel primitives of PrimFloat/PrimInt63 that Print Assumptions lists; Flocq; extraction + OCaml driver; Rust harness; oracle; libm exp/ln not modelled for floats',
    ref='DESIGN.md §5 C18'),
 }
